@@ -1,3 +1,294 @@
-import CddVerif.Model.JsonSchema
+import CddVerif.Proofs.JsonSchema
+/-!
+# C06 — the emitted JSON-schema is valid, self-consistent and round-trips
+
+Statement (properties.jsonl): *the JSON-schema emitted for an interface is serialisable JSON and a valid draft 2020-12
+schema; a property is listed as required exactly when its type is not Optional, every emitted default validates
+against its own property schema, and a Literal type becomes a pattern accepting exactly its members.  Parsing the
+emitted schema back yields the same interface (Literal members compared as a set).*
+
+Model: `CddVerif/Model/JsonSchema.lean` (`emit`, `parse`, `validSchema`, `validates`, `patAccepts`; the type tables are
+REGENERATED from /repo into `Gen/JsonSchemaTables.lean`).  Domain: `IR.ok` — types int/float/str/bool/dict/list,
+`Literal[str, …]` (members: non-empty words of letters, digits, `_`), `Optional[…]` of those; defaults typed by the
+parameter's type (or `None` on an `Optional`); parameter docs arbitrary; header prose and return entry from the
+trigger-free prose domain; **any number of parameters** (a Python dict has unique keys: hypothesis `Nodup` on the names).
+
+*Serialisable JSON* holds by construction in the model (`emit` returns a `J`, the type of JSON values); on the real
+code it is checked case by case (`json.dumps(allow_nan=False)` and reload) by `harness/props/c06.py`, and the equality
+"emitted dict = model `J`" only holds for dicts made of JSON types.
+
+What the unchanged code does **not** satisfy is proved as a negation with a concrete witness (each is a known finding
+replayed on the real code): `emit_raises_on_single_member_literal`, `pattern_not_exact`, `roundtrip_drops_none_default`.
+-/
 namespace C06
+open JsonSchema Py Gen.JsonSchemaTables
+
+/-! ### vocabulary of the statements -/
+
+/-- the names listed under `required` in a schema -/
+def requiredNames : J → List Str
+  | .obj kvs => match lookup js!"required" kvs with
+    | some (.arr xs) => xs.filterMap J.str?
+    | _ => []
+  | _ => []
+
+/-- the `properties` of a schema, in order -/
+def propertiesOf : J → List (Str × J)
+  | .obj kvs => match lookup js!"properties" kvs with
+    | some (.obj ps) => ps
+    | _ => []
+  | _ => []
+
+def keyOf (k : Str) : J → Option J
+  | .obj kvs => lookup k kvs
+  | _ => none
+
+/-- parameter names are the keys of an `OrderedDict` -/
+abbrev NamesUnique (ir : IR) : Prop := (ir.params.map (·.1)).Nodup
+
+/-- element-wise relation between two lists of the same length -/
+inductive Forall₂ {α β} (R : α → β → Prop) : List α → List β → Prop
+  | nil : Forall₂ R [] []
+  | cons {a b as bs} : R a b → Forall₂ R as bs → Forall₂ R (a :: as) (b :: bs)
+
+/-- how the interface description writes a default: `None` is `NoneStr` -/
+def Default.toIR : Default → J
+  | .none => .str noneStr
+  | d => d.toJ
+
+/-- same type, `Literal` members compared as a set -/
+def SameTyp (a b : Typ) : Prop :=
+  a.optional = b.optional ∧
+  match a.core, b.core with
+  | .base x, .base y => x = y
+  | .lit xs, .lit ys => ∀ m, m ∈ xs ↔ m ∈ ys
+  | _, _ => False
+
+def SameParam (pp : PParam) (p : Param) : Prop :=
+  (∃ t, pp.typ = some t.render ∧ SameTyp t p.typ) ∧ pp.doc = p.doc.map J.str ∧
+  pp.default = p.default.map Default.toIR ∧ pp.extra = []
+
+/-- the parsed description is the same interface: same header prose, the same parameters in the same order (name,
+    type up to the order of `Literal` members, doc, default), the same return entry.  (The function *name* is not
+    part of the interface view — DESIGN §3; `parse` reads no name from an emitted schema.) -/
+def SameInterface (pir : PIR) (ir : IR) : Prop :=
+  pir.doc = ir.doc ∧
+  Forall₂ (fun pp ip => pp.1 = ip.1 ∧ SameParam pp.2 ip.2) pir.params ir.params ∧
+  match pir.returns, ir.returns with
+  | none, none => True
+  | some pr, some r => pr.typ = some r.typ.render ∧ pr.doc = r.doc
+  | _, _ => False
+
+/-! ### the emitter returns a schema … unless a `Literal` has a single member -/
+
+/-- `emit` returns exactly when no parameter is a `Literal` with fewer than two members, and then returns `emitT` -/
+theorem emit_ok_iff (ir : IR) :
+    (∃ j, emit ir = .ok j) ↔ ∀ np ∈ ir.params, np.2.typ.emitError = none := by
+  have key : ∀ ps : List (Str × Param), emitError ps = none ↔ ∀ np ∈ ps, np.2.typ.emitError = none := by
+    intro ps
+    induction ps with
+    | nil => simp [emitError]
+    | cons x xs ih =>
+      simp only [emitError, List.mem_cons, forall_eq_or_imp]
+      cases hx : x.2.typ.emitError with
+      | none => simpa using ih
+      | some e => simp
+  unfold emit
+  cases he : emitError ir.params with
+  | none => simpa using (key ir.params).mp he
+  | some e =>
+    simp only [reduceCtorEq, exists_false, false_iff]
+    intro h
+    rw [(key ir.params).mpr h] at he
+    cases he
+
+theorem emit_eq (ir : IR) (j : J) (h : emit ir = .ok j) : j = emitT ir := by
+  unfold emit at h
+  cases he : emitError ir.params with
+  | none => rw [he] at h; cases h; rfl
+  | some e => rw [he] at h; cases h
+
+/-- full statement of "a schema is emitted for every interface of the domain" -/
+def emits_full : Prop := ∀ ir : IR, ir.ok = true → NamesUnique ir → ∃ j, emit ir = .ok j
+
+/-- **negation (known finding C06-single-member-literal):** `Literal['alpha']` is in the domain, the emitter raises on it
+    (`'str' object has no attribute 'elts'`). -/
+theorem emit_raises_on_single_member_literal : ¬ emits_full := by
+  intro h
+  have := (emit_ok_iff _).mp (h { name := some js!"F", doc := [], returns := none, params :=
+      [(js!"a", { typ := { optional := false, core := .lit [js!"alpha"] } })] }
+    (by decide) (by decide)) _ (List.mem_singleton.mpr rfl)
+  revert this
+  decide
+
+/-! ### required ⇔ not Optional -/
+
+/-- **clause "a property is listed as required exactly when its type is not Optional"** — full strength, every
+    interface (no domain restriction needed). -/
+theorem required_iff_not_optional (ir : IR) (j : J) (h : emit ir = .ok j) (name : Str) :
+    name ∈ requiredNames j ↔ ∃ p, (name, p) ∈ ir.params ∧ p.typ.optional = false := by
+  rw [emit_eq ir j h]
+  have : requiredNames (emitT ir) = emitRequired ir.params := by
+    have h2 : ∀ ys : List Str, (ys.map J.str).filterMap J.str? = ys := by
+      intro ys; induction ys with
+      | nil => rfl
+      | cons y ys ih => simpa [J.str?] using ih
+    simp [requiredNames, emitT, lookup, h2]
+  rw [this]
+  exact mem_emitRequired ir.params name
+
+/-- non-vacuity: a schema with a required and a non-required property -/
+example : requiredNames (emitT { name := none, doc := [], returns := none, params :=
+    [(js!"a", { typ := { optional := false, core := .base .int } }),
+     (js!"b", { typ := { optional := true, core := .base .str } })] }) = [js!"a"] := by decide
+
+/-! ### valid draft 2020-12 schema -/
+
+/-- **clause "a valid draft 2020-12 schema"** — every schema emitted for an interface of the domain satisfies the
+    meta-schema fragment (`$id $schema description type properties required default pattern format`). -/
+theorem emitted_valid (ir : IR) (hok : ir.ok = true) (hnd : NamesUnique ir) (j : J) (h : emit ir = .ok j) :
+    validSchema j = true := by
+  rw [emit_eq ir j h]
+  exact validSchema_emitT ir hok hnd
+
+/-- the fragment is not trivially true: the schema the emitter wrote before commit 40dabda (`"description": null`) fails -/
+example : validSchema (.obj [(js!"$id", .str js!"x"), (js!"description", .null), (js!"type", .str js!"object")]) = false := by decide
+example : validSchema (.obj [(js!"properties", .obj [(js!"a", .obj [(js!"type", .str js!"int")])])]) = false := by decide
+example : validSchema (.obj [(js!"required", .arr [.str js!"a", .str js!"a"])]) = false := by decide
+
+/-- **table theorem** (over the REGENERATED tables): each of the six type names has a JSON type that is one of the
+    meta-schema's `simpleTypes`, and the parser's table maps it back to the same name. -/
+theorem tables_cover_domain (b : Base) :
+    simpleTypes.contains (jsonTypeOf b.name) = true ∧ lookup (jsonTypeOf b.name) jsonType2typ = some b.name :=
+  ⟨(base_tables b).2.2, (base_tables b).2.1⟩
+
+/-! ### defaults validate -/
+
+/-- **clause "every emitted default validates against its own property schema"** (typed-default domain `paramOk`). -/
+theorem default_validates (ir : IR) (hok : ir.ok = true) (j : J) (h : emit ir = .ok j)
+    (name : Str) (prop d : J) (hp : (name, prop) ∈ propertiesOf j) (hd : keyOf js!"default" prop = some d) :
+    validates prop d = true := by
+  rw [emit_eq ir j h] at hp
+  have hprops : propertiesOf (emitT ir) = emitProps ir.params := by simp [propertiesOf, emitT, lookup]
+  rw [hprops] at hp
+  obtain ⟨np, hnp, e⟩ := List.mem_map.mp hp
+  cases e
+  have hpo : paramOk np.2 = true := by
+    simp only [IR.ok, Bool.and_eq_true] at hok
+    exact List.all_eq_true.mp hok.1.2 np hnp
+  have hd' : emittedDefault np.2 = some d := by
+    rw [emitProp_eq] at hd
+    simpa [keyOf, lookup_default] using hd
+  exact validates_default np.2 hpo d hd'
+
+/-- non-vacuity: a Literal with a member default, and a default that would *not* validate -/
+example : validates (emitProp { typ := ⟨false, .lit [js!"b2", js!"x_1"]⟩, default := some (.str js!"x_1") }).1 (.str js!"x_1") = true := by decide
+example : validates (emitProp { typ := ⟨false, .base .int⟩ }).1 (.str js!"x") = false := by decide
+
+/-! ### Literal → pattern -/
+
+/-- a `Literal` parameter is emitted with `"pattern": "|".join(sorted(members))` and `"type": "string"` -/
+theorem literal_becomes_pattern (p : Param) (ms : List Str) (h : p.typ.core = .lit ms) :
+    keyOf js!"pattern" (emitProp p).1 = some (.str (patternOf ms)) ∧ keyOf js!"type" (emitProp p).1 = some (.str js!"string") := by
+  rw [emitProp_eq]
+  simp only [keyOf, lookup_pattern, lookup_type, emitType, h]
+  exact ⟨rfl, by decide⟩
+
+/-- full statement of **clause "a Literal type becomes a pattern accepting exactly its members"** -/
+def pattern_exact_full : Prop :=
+  ∀ (ms : List Str) (s : Str), ms ≠ [] → ms.all memberOk = true → (patAccepts (patternOf ms) s = true ↔ s ∈ ms)
+
+/-- what is true: the pattern accepts exactly the strings that **contain** a member (unanchored `re.search`) -/
+theorem pattern_accepts_iff_contains_member (ms : List Str) (s : Str) (hne : ms ≠ []) (hok : ms.all memberOk = true) :
+    patAccepts (patternOf ms) s = true ↔ ∃ m ∈ ms, isInfix m s = true :=
+  patAccepts_patternOf ms hne hok s
+
+/-- partial: every member is accepted -/
+theorem pattern_accepts_members (ms : List Str) (m : Str) (hok : ms.all memberOk = true) (hm : m ∈ ms) :
+    patAccepts (patternOf ms) m = true :=
+  (patAccepts_patternOf ms (fun e => by simp [e] at hm) hok m).mpr ⟨m, hm, contains_self m⟩
+
+/-- **negation (known finding C06-pattern-unanchored):** `Literal['alpha', 'beta']` → `"alpha|beta"` accepts `"xalphax"` -/
+theorem pattern_not_exact : ¬ pattern_exact_full := by
+  intro h
+  have := (h [js!"alpha", js!"beta"] js!"xalphax" (by decide) (by decide)).mp (by decide)
+  revert this
+  decide
+
+/-! ### round trip -/
+
+/-- full statement of **clause "parsing the emitted schema back yields the same interface"** -/
+def roundtrip_full : Prop :=
+  ∀ (ir : IR) (j : J), ir.ok = true → NamesUnique ir → emit ir = .ok j →
+    ∃ pir, parse j = .ok pir ∧ SameInterface pir ir
+
+theorem forall₂_map_left {α β} (f : α → β) (R : β → α → Prop) (l : List α) (h : ∀ a ∈ l, R (f a) a) :
+    Forall₂ R (l.map f) l := by
+  induction l with
+  | nil => exact .nil
+  | cons x xs ih => exact .cons (h x (by simp)) (ih (fun a ha => h a (by simp [ha])))
+
+theorem sameTyp_normTyp (t : Typ) : SameTyp (normTyp t) t := by
+  refine ⟨rfl, ?_⟩
+  cases hc : t.core with
+  | base b => simp [normTyp, hc]
+  | lit ms => simp only [normTyp, hc]; exact fun m => mem_sortStrs m ms
+
+/-- **partial (proved): the round trip holds for every interface of the domain whose defaults are not members of
+    `none_types`** (`None`, and the strings `"None"` / "```(None)```") — any number of parameters, `Optional[Literal[…]]`,
+    members with digits and underscores included.  Missing for the full statement: exactly those defaults, see
+    `roundtrip_drops_none_default`. -/
+theorem roundtrip (ir : IR) (j : J) (hok : ir.ok = true) (hnd : NamesUnique ir) (h : emit ir = .ok j)
+    (hnone : ∀ np ∈ ir.params, ∀ d, np.2.default = some d → d.isNone = false) :
+    ∃ pir, parse j = .ok pir ∧ SameInterface pir ir := by
+  rw [emit_eq ir j h]
+  refine ⟨expected ir, parse_emitT ir hok hnd, ?_⟩
+  unfold SameInterface
+  refine ⟨rfl, ?_, ?_⟩
+  · apply forall₂_map_left
+    intro np hnp
+    refine ⟨rfl, ⟨normTyp np.2.typ, rfl, sameTyp_normTyp _⟩, rfl, ?_, rfl⟩
+    simp only [expectedParam, emittedDefault]
+    cases hd : np.2.default with
+    | none => rfl
+    | some d =>
+      have := hnone np hnp d hd
+      cases d with
+      | none => exact absurd this (by decide)
+      | str s => simp_all [Default.toIR, Default.isNone]
+      | int i => rfl
+      | float r => rfl
+      | bool b => rfl
+  · simp only [expected]
+    cases ir.returns with
+    | none => trivial
+    | some r => exact ⟨rfl, rfl⟩
+
+/-- non-vacuity of `roundtrip`: an interface with `Optional[Literal[…]]` (members with digits/underscores), a typed
+    default, docs and a return entry satisfies every hypothesis -/
+def sample : IR :=
+  { name := some js!"F", doc := js!"Summary line.",
+    params := [(js!"a", { typ := ⟨false, .base .int⟩, doc := some js!"the a", default := some (.int 5) }),
+               (js!"d", { typ := ⟨true, .lit [js!"x_1", js!"b2", js!"alpha"]⟩, default := some (.str js!"b2") })],
+    returns := some { typ := ⟨true, .base .str⟩, doc := some js!"the result" } }
+example : sample.ok = true ∧ NamesUnique sample ∧ emit sample = .ok (emitT sample) ∧
+    (∀ np ∈ sample.params, ∀ d, np.2.default = some d → d.isNone = false) := by
+  refine ⟨by decide, by decide, rfl, ?_⟩
+  decide
+
+/-- **negation (known finding C06-none-default-dropped):** `Optional[int]` with default `None`: the default is deleted by
+    the emitter and absent after the round trip. -/
+theorem roundtrip_drops_none_default : ¬ roundtrip_full := by
+  intro h
+  let w : IR := { name := some js!"F", doc := [], returns := none, params :=
+      [(js!"a", { typ := ⟨true, .base .int⟩, default := some .none })] }
+  obtain ⟨pir, hp, _, hparams, _⟩ := h w (emitT w) (by decide) (by decide) rfl
+  rw [parse_emitT w (by decide) (by decide)] at hp
+  cases hp
+  cases hparams with
+  | cons hhead _ =>
+    have := hhead.2.2.2.1
+    revert this
+    decide
+
 end C06
